@@ -279,7 +279,7 @@ fn draw_mine(sw: &Swarm, w: &World, rng: &mut Rng) -> Event {
     let valid_ids: Vec<usize> = ids
         .iter()
         .copied()
-        .filter(|i| w.net.blocks[i].mutation == Mutation::None && w.net.blocks[i].ledger.is_some())
+        .filter(|i| w.net.blocks[i].is_honest() && w.net.blocks[i].ledger.is_some())
         .collect();
     let best_net_tip = *valid_ids
         .iter()
@@ -425,6 +425,15 @@ pub fn draw_config_change(sw: &Swarm, w: &World, rng: &mut Rng) -> ConfigSpec {
         _ => {
             // threshold up and down mid-history
             c.threshold = Some(*rng.pick(&[1u32, 1, 2, 3, 4, 6, 10]));
+        }
+    }
+    // Changing the threshold while a block is mid-ingestion is part of C03's quantifier only
+    // (there it exposes a known finding); other profiles do not quantify over it.
+    if profile != "C03" && w.ingest_rounds > 0 {
+        if let Some(t) = c.threshold {
+            if t > w.threshold {
+                c.threshold = Some(w.threshold);
+            }
         }
     }
     let _ = sw;
